@@ -29,6 +29,7 @@ func main() {
 	mutants := flag.String("mutants", "", "development: run the mutants of this property and print the results")
 	only := flag.String("only", "", "with -mutants: run only this mutant id")
 	dump := flag.String("dump", "", "development: dump an inventory (panics)")
+	learn := flag.Bool("learn-anchors", false, "maintenance: run every property on the reference tree and record the fingerprints of all name-resolved anchors in <verif>/anchors.json")
 	flag.Parse()
 
 	if *list {
@@ -65,6 +66,32 @@ func main() {
 		dumpPanics(*repo)
 		return
 	}
+	if *learn {
+		anchorLearn = true
+		var ids []string
+		for id := range props {
+			ids = append(ids, id)
+		}
+		sort.Strings(ids)
+		tmp, _ := os.MkdirTemp("", "tsscheck-learn-")
+		defer os.RemoveAll(tmp)
+		if kf, err := os.ReadFile(filepath.Join(*verif, "known_findings.json")); err == nil {
+			os.WriteFile(filepath.Join(tmp, "known_findings.json"), kf, 0o644)
+		}
+		bad := 0
+		for _, id := range ids {
+			if rc := runProp(id, props[id], "quick", *repo, tmp, seed); rc != 0 {
+				fmt.Fprintf(os.Stderr, "learn-anchors: property %s does not pass on this tree; its anchors are recorded all the same\n", id)
+				bad++
+			}
+		}
+		if err := saveLearnedAnchors(*verif); err != nil {
+			fmt.Fprintln(os.Stderr, err)
+			os.Exit(2)
+		}
+		fmt.Printf("learn-anchors: %d anchors recorded in %s/anchors.json (%d properties not passing)\n", len(anchorLearned), *verif, bad)
+		return
+	}
 	if *mutants != "" {
 		os.Exit(mutantsCLI(*mutants, *repo, *verif, *only))
 	}
@@ -81,6 +108,8 @@ func main() {
 
 func runProp(id string, f propFn, tier, repo, verif string, seed int64) (code int) {
 	c := NewCtx(id, tier, repo, verif, seed)
+	loadAnchorTable(verif)
+	anchorNotes = nil
 	func() {
 		defer func() {
 			if r := recover(); r != nil {
@@ -88,6 +117,9 @@ func runProp(id string, f propFn, tier, repo, verif string, seed int64) (code in
 			}
 		}()
 		f(c)
+		for _, n := range anchorNotes {
+			c.Note("anchor: %s", n)
+		}
 		if tier == "thorough" {
 			runThorough(c)
 		}
